@@ -72,11 +72,15 @@ class Analysis:
 
     def stats(self, interps) -> dict:
         fns = set()
-        res = ext = 0
+        internal, external = set(), set()
         for it in interps:
             fns |= it.reached
-            res += it.calls_resolved
-            ext += it.calls_external
+            for nid, callees in it.callees.items():
+                if any(self.prog.find_function(q) is not None or q in {c.qual for c in self.prog.all_classes()} for q in callees):
+                    internal.add(nid)
+                elif callees:
+                    external.add(nid)
+        res, ext = len(internal), len(external)
         return {
             "units_parsed": sorted(m.relpath for m in self.prog.modules.values()),
             "functions_analysed": len(fns),
